@@ -41,6 +41,30 @@ CLAIMS = {
  "C07": dict(text="Proved: framing = FIPS 204 M' (absent ctx = empty), OIDs = DER of id-sha256/512 and equal to every copy's constants, ctx > 255 gives none/false without drawing randomness, framing injective (pure, pre-hash, across modes), and acceptance of one signature for two different representatives yields an explicit SHAKE-256 collision (mu-level or c~-level). Tie: API signature = raw signature of the independently built M' for ctx lengths none/0/1/2/254/255/256/257/1000 and 3 modes; all ordered framing pairs verify/reject as required, incl. same ctx||M with a different split.",
              note="'never verifies under another framing' is proved in the only form possible without a hardness assumption: as the construction of a collision.",
              tech="Lean 4 proof + multi-stage differential tie", ref="5/C07"),
+ "C01": dict(text="Proved (loop logic): the signing loop returns exactly the packed output of the first accepted iteration, gives up only if all iterations within the fuel were rejected. NOT proved: the algebraic completeness lemma (accepted iteration => verify accepts) and termination (a statement about SHAKE outputs): partial. Tie: sign-then-verify through every entry point (raw/API, deterministic, hedged/randomized with the real RNG, contexts 0..255, SHA-256/512 pre-hash, seeded/unseeded keys, block-straddling message lengths), exact length.",
+             note="PARTIAL: completeness on the explored inputs is observed on the code (and equals the model); termination is observed, not proved.",
+             tech="Lean 4 proof (loop invariant) + sign/verify differential tie", ref="5/C01"),
+ "C02": dict(text="Proved: length gate (every truncation/extension is false without decoding), message/context/mode/hash binding and key binding with an explicit SHAKE-256 collision as conclusion. Not provable (SUF-CMA): rejection of a different (c~,z,h) - covered by the exhaustive single-bit-flip scan per sampled signature (all 8*SIGNBYTES flips, all truncations, all message bit flips/prefixes) on both builds.",
+             note="PARTIAL by nature: signature-bit flips rest on observation; binding theorems conclude collisions, they do not assume collision resistance.",
+             tech="Lean 4 proof (collision-extraction) + exhaustive alteration scans on the implementation", ref="5/C02"),
+ "C03": dict(text="Proved on the model of verify: norm gate and canonical-hint decoding reject before/independently of the hash comparison; acceptance iff all gates passed and c~ = H(mu || w1Encode(w1')). Tie: model-forged hash-consistent near-misses (z over the bound: reject; second accepted iteration of another signer, largest-response iteration: accept), non-canonical hint sections derived from valid signatures, random strings, NIST verify vectors; model is the judge and verdicts are asserted.",
+             note="PARTIAL: the refinement of the arithmetic path to FIPS 204 ring operations (via C13) is not finished.",
+             tech="Lean 4 proof (decision logic) + differential tie with model-side forgers", ref="5/C03"),
+ "C05": dict(text="Proved: signature = signature_with (Sign_internal interface) applied to exactly the drawn bytes: nothing drawn in deterministic mode, 32 bytes (ML-DSA hedged, entering as rnd) or 64 bytes (Dilithium randomized, being rho') otherwise, rest of the tape untouched. Tie: byte-exact agreement code = KAT-anchored model over block-straddling message lengths, contexts, pre-hash, scripted-tape hedged/randomized modes, NIST signature vectors as external answers.",
+             note="No offline ML-DSA signing oracle exists in the sandbox; ML-DSA signing is anchored on the shared body (NIST Dilithium KATs), OpenSSL KeyGen KATs and the proved framing.",
+             tech="Lean 4 proof (randomness interface) + KAT-anchored differential tie", ref="5/C05"),
+ "C06": dict(text="Proved: an emitted signature is the packing of an iteration in which none of the four rejection tests fired (on z, w0-cs2, ct0, hint count) with c~ = H(mu || w1Encode(w1)). Tie: every signature returned by any entry point (incl. real-RNG hedged/randomized) is decoded by the model with the secret key and the five C06 conditions evaluated numerically; the judge is validated on model-forged signatures of a test-skipping signer.",
+             note="PARTIAL: identification of the tested quantities with y = z - c s1, LowBits(Ay - c s2) (ring algebra through the NTT) is evaluated per signature, not yet a theorem.",
+             tech="Lean 4 proof (control flow of the iteration) + model-side judge on emitted signatures", ref="5/C06"),
+ "C08": dict(text="Proved: wrong length, rejected hint decoding and failed norm gate are answered false (not a fault) before any arithmetic; u16 nonce budget. NOT finished: range analysis of the arithmetic path (verify_total): partial. Tie: overflow-checked and wrapping builds under catch_unwind on adversarial signatures (hint counters/indices, extreme z and t1 patterns, all lengths), identical decisions, honest keygen/sign path in the checked build, samples compared with the checked-semantics model.",
+             note="PARTIAL: totality beyond the gates is observed in the overflow-checked build on the explored inputs.",
+             tech="Lean 4 proof (gates) + checked-build fuzz scans", ref="5/C08"),
+ "C09": dict(text="Proved: the library as a machine over an RNG tape: per-operation amounts (32/32/64/0), consumption in call order over any call sequence, output = specification's function of exactly the drawn bytes. Tie (RNG tap hook): logged requests of the real code = model prediction; replaying logged bytes as a script reproduces the output; repeated draws/outputs pairwise distinct, deterministic ones identical.",
+             note="That rand::thread_rng is an OS-seeded CSPRNG is trusted (rand's contract); CSPRNG quality is not modelled.",
+             tech="Lean 4 proof (tape machine) + hook-based request-log tie", ref="5/C09"),
+ "C10": dict(text="Proved: in the sequential machine drawing-free operations return the same result from every state (history independence). Tie: deterministic request pool executed concurrently on 1..16 threads in different orders and after randomized operations, every answer compared with the isolated one; source scan for static/thread_local/unsafe/interior mutability.",
+             note="PARTIAL: the OS scheduler is not modelled; schedules are sampled.",
+             tech="Lean 4 proof (state-independence) + interleaving stress tie + source scan", ref="5/C10"),
  "C15": dict(text="Theorems for all a in [0,q) and all (w1,a0): power2round/decompose contracts for both gamma2, equality with FIPS 204 Alg. 35/36/40, UseHint(MakeHint)=w1 on |a0|<2*gamma2, make_hint = spec MakeHint. Tie: exhaustive sweep of [0,q) for every copy (lvl2/3/5) and of every (w1,a0) pair, both builds.",
              note="Magic constants 11275/1025/shift amounts are in the hand-written model; the exhaustive sweep ties them to the code.",
              tech="Lean 4 proof (omega, case split on the rounding quotient) + exhaustive differential tie", ref="5/C15"),
@@ -69,7 +93,7 @@ man = dict(
     setup_cmd="./setup.sh",
     hooks=dict(guard="dilithium_verif", enable="RUSTFLAGS='--cfg dilithium_verif' (set in harness/.cargo/config.toml)",
                baseline_off_cmd="cd /repo && cargo test --workspace --no-fail-fast --offline",
-               source_commits=[], add_only=True),
+               source_commits=["2b2617b"], add_only=True),
     engines=[dict(name="lean-proof+differential-tie", path="lean/, harness/, tools/dvcheck/, check",
                   serves_properties=[c["property_id"] for c in checks],
                   kind_free_text="Lean 4 theorems about a hand-written executable model (checked-build semantics) + differential correspondence check against the Rust crate built from /repo's working tree")],
